@@ -263,6 +263,9 @@ type vC15Done struct {
 
 type vC15FailT struct{ oracle, detail string }
 
+// runs in which an operation never returned; after a handful the driver stops exploring
+var vC15HungRuns int
+
 func vC15Code(err error) int {
 	switch {
 	case err == nil:
@@ -510,7 +513,7 @@ func vC15Run(server bool, B int, threads [][]vC15Op, plan vC15Plan) vC15Result {
 	}
 	// wait until a transport write is pending or nothing is running, then a short grace period
 	settle := func(waitFor int) bool {
-		deadline := time.Now().Add(5 * time.Second)
+		deadline := time.Now().Add(2 * time.Second)
 		for {
 			collect()
 			np := tc.npending()
@@ -564,7 +567,7 @@ func vC15Run(server bool, B int, threads [][]vC15Op, plan vC15Plan) vC15Result {
 			wf = t
 		}
 		if !settle(wf) {
-			bad("terminates", fmt.Sprintf("no quiescent state within 5 s after starting goroutine %d op %d", t, k))
+			bad("deadlock", fmt.Sprintf("no quiescent state within 2 s after starting goroutine %d op %d", t, k))
 		}
 	}
 	doRelease := func() {
@@ -595,7 +598,7 @@ func vC15Run(server bool, B int, threads [][]vC15Op, plan vC15Plan) vC15Result {
 		idx := len(actions)
 		actions = append(actions, vL(vZ(1), vI(owner), vZ(-1)))
 		if !settle(-1) {
-			bad("terminates", "no quiescent state within 5 s after a transport write returned")
+			bad("deadlock", "no quiescent state within 2 s after a transport write returned")
 		}
 		next := -1
 		tc.mu.Lock()
@@ -651,7 +654,7 @@ func vC15Run(server bool, B int, threads [][]vC15Op, plan vC15Plan) vC15Result {
 			doStart(st[0])
 		} else if nActive > 0 {
 			if !settle(-1) || tc.npending() == 0 && nActive > 0 {
-				bad("terminates", fmt.Sprintf("%d operation(s) neither finished nor in a transport write", nActive))
+				bad("deadlock", fmt.Sprintf("%d operation(s) neither finished nor blocked in a transport write: a writer hangs", nActive))
 				break
 			}
 		} else {
@@ -666,8 +669,22 @@ func vC15Run(server bool, B int, threads [][]vC15Op, plan vC15Plan) vC15Result {
 	for tc.npending() > 0 {
 		tc.releaseOldest()
 	}
-	wg.Wait()
-	<-readerDone
+	// watchdog: everything is in memory; goroutines that do not end within 2 s are abandoned
+	allDone := make(chan bool)
+	go func() { wg.Wait(); <-readerDone; close(allDone) }()
+	select {
+	case <-allDone:
+	case <-time.After(2 * time.Second):
+		hung := []int{}
+		collect()
+		for t := 0; t < n; t++ {
+			if active[t] {
+				hung = append(hung, t)
+			}
+		}
+		bad("writer-hung", fmt.Sprintf("goroutine(s) %v never returned from their write operation (abandoned)", hung))
+		vC15HungRuns++
+	}
 	collect()
 
 	// ---- observation + oracles on the received bytes
@@ -924,6 +941,7 @@ func vC15GenConfig(r *vRng) (bool, int, [][]vC15Op) {
 func TestVerifC15(t *testing.T) {
 	k := vNewKit(t, "C15")
 	defer k.close()
+	stop := func() bool { return vC15HungRuns >= 4 }
 	record := func(res vC15Result) {
 		idx := k.record(res.c, res.obs, res.nontriv)
 		k.count("actions", vSizeBucket(len(res.branches)))
@@ -947,6 +965,9 @@ func TestVerifC15(t *testing.T) {
 		vC15Fix([][]vC15Op{{vC15Ctl(false, 9, 8)}, {vC15Msg(2, 16, 16, 5)}, {{kind: 3}}}),
 	}
 	for _, th := range fixed {
+		if stop() {
+			break
+		}
 		// data first chunk pending, then start every control sender, then release everything
 		dataT := len(th) - 1
 		if th[dataT][0].kind == 3 {
@@ -966,9 +987,46 @@ func TestVerifC15(t *testing.T) {
 			return -1
 		}))
 	}
+	// 1b. a control write with a short deadline times out while a two-write data frame is between
+	// its transport writes; further control writes follow; then the data frame completes
+	tmoCfgs := [][][]vC15Op{
+		vC15Fix([][]vC15Op{{vC15Ctl(true, 9, 8), vC15Ctl(false, 9, 9)}, {vC15Ctl(false, 10, 8)}, {vC15WM(2, 60), vC15WM(1, 5)}}),
+		vC15Fix([][]vC15Op{{vC15Ctl(true, 10, 8), vC15Ctl(true, 9, 9), vC15Ctl(false, 9, 10)}, {vC15Ctl(false, 8, 8)}, {vC15Msg(1, 10, 100, 3)}}),
+		vC15Fix([][]vC15Op{{vC15Ctl(true, 9, 8)}, {vC15Ctl(true, 10, 8), vC15Ctl(false, 10, 9)}, {vC15Ctl(false, 9, 12)}, {vC15WM(2, 200), vC15Msg(2, 16, 16, 5)}}),
+	}
+	for ci, th := range tmoCfgs {
+		for variant := 0; variant < 3 && !stop(); variant++ {
+			dataT := len(th) - 1
+			phase, started := 0, 0
+			v := variant
+			record(vC15Run(true, 16, th, func(i int, rel bool, mid bool, st []int) int {
+				if i == 0 {
+					return 1 + dataT
+				}
+				if phase == 0 {
+					// variant 0/1: wait until the frame is between its two writes; variant 2: first write still blocked
+					if (v < 2 && !mid && rel && i < 4) || (v == 2 && false) {
+						return 0
+					}
+					phase = 1
+				}
+				if phase == 1 {
+					// start every control sender's next operation (the deadline-bounded ones time out here)
+					for _, t := range st {
+						if t != dataT && started < 2+v+ci {
+							started++
+							return 1 + t
+						}
+					}
+					phase = 2
+				}
+				return -1 // drain: release the data frame, run the rest
+			}))
+		}
+	}
 	// 2. closer / Close frame at every position of one multi-frame exchange
 	base := vC15Fix([][]vC15Op{{vC15Ctl(false, 8, 12)}, {vC15Msg(1, 10, 100, 3), vC15WM(2, 40)}, {vC15Ctl(false, 9, 5), vC15Ctl(false, 10, 5)}})
-	for pos := 0; pos < 12; pos++ {
+	for pos := 0; pos < 12 && !stop(); pos++ {
 		for _, closer := range []bool{false, true} {
 			th := base
 			if closer {
@@ -1000,7 +1058,7 @@ func TestVerifC15(t *testing.T) {
 	}
 	// 3. random configurations and schedules
 	n := k.N(36, 400)
-	for i := 0; i < n; i++ {
+	for i := 0; i < n && !stop(); i++ {
 		server, B, th := vC15GenConfig(k.rnd)
 		r := k.rnd.fork()
 		if i%2 == 0 {
@@ -1082,7 +1140,7 @@ func TestVerifC15(t *testing.T) {
 				for j >= 0 && full[j]+1 >= br[j] {
 					j--
 				}
-				if j < 0 || runs >= 6000 || time.Now().After(budget) {
+				if j < 0 || runs >= 6000 || time.Now().After(budget) || stop() {
 					break
 				}
 				full[j]++
